@@ -203,7 +203,7 @@ def classify(unit, text, pm, proc):
         if fn_label is None:
             fn_label = next((l.get("fn") for l in locs if l.get("fn")), "?")
         clause = locs[0]["text"] if locs else ""
-        other = [l["text"] for l in locs[1:] if l.get("text")]
+        other = [(l.get("label") if (l.get("label") or "").startswith("at the end") else l["text"][:70]) for l in locs[1:] if l.get("text")]
         name = "%s/%s/%s: %s" % (unit, fn_label, kind, clause)
         if other:
             name += " @ " + " | ".join(other)
@@ -281,7 +281,7 @@ def run_unit(unit, canary=False, keep=True):
         r.problems.append("verus exit %d without diagnostics: %s" % (proc.returncode, proc.stderr[-400:]))
     if canary and r.status == "pass":
         ctext, labels = insert_canaries(text, pm)
-        cpath = os.path.join(OUT, unit + ".canary.rs")
+        cpath = os.path.join(OUT, unit + "_canary.rs")
         with open(cpath, "w") as fh:
             fh.write(ctext)
         cproc, cw, _ = run_verus(cpath)
